@@ -160,7 +160,7 @@ def run(ctx):
         "stack bound checked on the ASan build (frames larger than the shipped -O2 build): <= %d bytes" % STACK_MAX,
     ]
     bad = common.forbidden_scan()
-    cres = common.coq_properties([PID, "C01_parser"])
+    cres = common.coq_properties([PID, "C01_parser", "C01_xmlsize"])
     common.proof_coverage(ctx, cres)
     proof_broken = (not cres["ok"]) or bool(bad)
 
